@@ -41,18 +41,21 @@ def Cfg.preFix : Cfg := ⟨false, false, false⟩
 the property file) -/
 def maxNesting : Nat := 32
 
-/-! ## Integer conversions (C casts on a two's-complement machine) -/
+/-! ## Integer conversions (C casts on a two's-complement machine)
+
+(`@[irreducible]`: the elaborator must never try to evaluate them on symbolic arguments — that
+would compare 32-bit literals in unary.) -/
 
 /-- `(int8_t)x` -/
-def toI8 (x : Int) : Int := (x + 128) % 256 - 128
+@[irreducible] def toI8 (x : Int) : Int := (x + 128) % 256 - 128
 /-- `(int16_t)x` -/
-def toI16 (x : Int) : Int := (x + 32768) % 65536 - 32768
+@[irreducible] def toI16 (x : Int) : Int := (x + 32768) % 65536 - 32768
 /-- `(int32_t)x` -/
-def toI32 (x : Int) : Int := (x + 2147483648) % 4294967296 - 2147483648
+@[irreducible] def toI32 (x : Int) : Int := (x + 2147483648) % 4294967296 - 2147483648
 /-- `(int64_t)x` -/
-def toI64 (x : Int) : Int := (x + 9223372036854775808) % 18446744073709551616 - 9223372036854775808
+@[irreducible] def toI64 (x : Int) : Int := (x + 9223372036854775808) % 18446744073709551616 - 9223372036854775808
 /-- `(uint64_t)x` -/
-def toU64 (x : Int) : Nat := (x % 18446744073709551616).toNat
+@[irreducible] def toU64 (x : Int) : Nat := (x % 18446744073709551616).toNat
 
 /-- `carquet_zigzag_encode64` (core/endian.h), argument an `int64_t` -/
 def zigzagEnc (v : Int) : Nat := if 0 ≤ v then (2 * v).toNat else (-2 * v - 1).toNat
